@@ -6,7 +6,7 @@
 # usage: tools/combo.sh [N] [refactoring ...]
 cd /verif
 N=${1:-2}; shift
-refs="$@"; [ -z "$refs" ] && refs=$(ls refactors | grep -v PROMPT | grep -v '^B')
+refs="$@"; [ -z "$refs" ] && refs=$(ls -d refactors/*/ | xargs -n1 basename | grep -v "^B")
 mkdir -p /tmp/combo
 export SNAP=$(mktemp -d /tmp/snap.XXXXXX); mkdir -p $SNAP/bin $SNAP/spec; cp ${DHCPVERIF_BIN:-bin/dhcpverif} $SNAP/bin/dhcpverif; cp spec/*.json $SNAP/spec/; cp known_findings.json $SNAP/; unset DHCPVERIF_BIN
 trap 'rm -rf $SNAP' EXIT
